@@ -222,11 +222,16 @@ func (wd *world) actRename(t *rapid.T) {
 			return
 		}
 	}
-	_, st := wd.run(s, "RENAME", false, fmt.Sprintf("RENAME %s %s", quoteName(from), quoteName(to)))
+	wire := to
+	if pick(t, "trailing", 4) == 0 {
+		// a trailing hierarchy delimiter is not part of the name (as for CREATE)
+		wire += "/"
+	}
+	_, st := wd.run(s, "RENAME", false, fmt.Sprintf("RENAME %s %s", quoteName(from), quoteName(wire)))
 	b := wd.st.boxes[from]
 	want := b != nil && wd.st.boxes[to] == nil
 	if want != (st.Status == "OK") {
-		wd.fail("RENAME %s %s: server says %s, model expects success=%v (existing: %v)", from, to, st.Status, want, wd.names())
+		wd.fail("RENAME %s %s: server says %s, model expects success=%v (existing: %v)", from, wire, st.Status, want, wd.names())
 	}
 	if want {
 		delete(wd.st.boxes, from)
